@@ -113,8 +113,7 @@ def r2_r3(ctx):
     e1 = got.get(("off", 12))
     ok1 = e1 is not None and e1[0] == ("arg", 1) and e1[1] == ENC
     if ok1:
-        g = [(vf.expr(fn, cnd), t) for cnd, t, br in es.guards_of(fn, e1[2])]
-        ok1 = any(gg[0] == "icmp" and t and gg[1] in ("ugt", "ne") and gg[2] == ENC and gg[3] == ("c", 0) for gg, t in g)
+        ok1 = es.Guards(fn, e1[2]).nonzero(ENC)
     ctx.check(ok1, "C14.R3", "copy:encapsulated-pdu", e1[2].loc() if e1 else s.loc(), "memcpy(rest, erroneous_pdu, erroneous_pdu_len) when the length is > 0",
               key="C14.R3:copy-enc")
     e2 = None
